@@ -235,7 +235,7 @@ def periodicCore (b : BusyRef) (iv : Int × Int) (period offset : Int) : Fml :=
 
 /-- the masks of `start` / `end` -/
 def periodicMasks (b : BusyRef) (start : Int) (end_ : Option Int) : List Fml :=
-  (if start > 0 then [Fml.le b.e (numT start)] else []) ++
+  (if start ≥ 0 then [Fml.le b.e (numT start)] else []) ++
   (match end_ with | some en => [Fml.ge b.s (numT en)] | none => [])
 
 /-- ResourcePeriodicallyUnavailable: the formula for one busy interval and one interval of the period -/
